@@ -502,6 +502,7 @@ pub fn run(thorough: bool) -> i32 {
         tg.packets += gg.packets;
         tg.lower_sent_while_higher_waited += gg.lower_sent_while_higher_waited;
         tg.ready_inside_a_turn += gg.ready_inside_a_turn;
+        tg.paced_due_polls += gg.paced_due_polls;
         tg.higher_resumed_after_lower += gg.higher_resumed_after_lower;
         if let Some((key, what)) = v {
             rep.add(Violation { key, what, case: json!({"check": "timed", "case": serde_json::to_value(c).unwrap()}) });
@@ -513,6 +514,7 @@ pub fn run(thorough: bool) -> i32 {
     rep.cov("timed_sender_runs", tg.runs);
     rep.guard("timed_lower_queue_sends_while_higher_object_waits_then_higher_resumes", tg.higher_resumed_after_lower);
     rep.guard("timed_polls_between_two_transfers_of_one_carousel_turn", tg.ready_inside_a_turn);
+    rep.guard("timed_polls_with_a_paced_packet_due", tg.paced_due_polls);
     rep.sample(serde_json::to_value(&tcases[tcases.len() / 3]).unwrap());
     rep.cov("states", ncases as u64);
     rep.cov("transitions", g.packets);
@@ -675,6 +677,8 @@ pub struct TG {
     pub higher_resumed_after_lower: u64,
     /// polls at which a carousel object with max_transfer_count >= 2 was between two transfers of one turn
     pub ready_inside_a_turn: u64,
+    /// polls at which the next packet of a paced top-queue object was due
+    pub paced_due_polls: u64,
 }
 
 pub fn run_timed(c: &TimedCase, g: &mut TG) -> Option<(String, String)> {
@@ -760,6 +764,46 @@ pub fn run_timed(c: &TimedCase, g: &mut TG) -> Option<(String, String)> {
                     if full[i].2 == 0 {
                         if sent % n == 0 {
                             last_start_poll = Some(poll);
+                        }
+                        sent += 1;
+                    }
+                    i += 1;
+                }
+            }
+        }
+        // absolute readiness of a PACED object alone in the top queue: packet i is due at start + i * target / n,
+        // "due" includes the instant of exact equality; at a poll where its next packet is due, the first object
+        // packet of the poll is its own
+        if c.timed.len() == 1 && !c.top_plain && matches!(c.timed[0].kind, 3 | 4) && c.timed[0].count <= 1 {
+            let t0k = &c.timed[0];
+            let n = SIZES[t0k.size as usize].div_ceil(4).max(1) as u64;
+            let mut sent = 0u64;
+            let mut start: Option<u64> = None;
+            let mut i = 0usize;
+            for poll in 0..c.polls {
+                let t = poll as u64 * c.step_ms;
+                let due = sent < n
+                    && match start {
+                        None => t0k.kind == 3 || t >= t0k.param_ms / 2,
+                        // flute derives the tick with floating point: a later packet may be due up to a few ns after
+                        // the exact instant, so equality within 1 us is not claimed (the first packet's instant is exact)
+                        Some(s) => (t - s) * 1_000_000 >= sent * t0k.param_ms * 1_000_000 / n + 1_000,
+                    };
+                if due {
+                    g.paced_due_polls += 1;
+                    if let Some(x) = full.get(i).filter(|x| x.0 == poll) {
+                        if x.2 != 0 {
+                            return Some((
+                                "C13/timed/lower-priority-packet-while-higher-ready".into(),
+                                format!("poll {} (t = {} ms): packet #{} of the paced object of the top queue ({:?}, {} packets, transfer started at {:?} ms) is due, yet the first packet of the poll belongs to queue {}", poll, t, sent, t0k, n, start, prio_of(x.2)),
+                            ));
+                        }
+                    }
+                }
+                while i < full.len() && full[i].0 == poll {
+                    if full[i].2 == 0 {
+                        if sent == 0 {
+                            start = Some(t);
                         }
                         sent += 1;
                     }
